@@ -189,6 +189,22 @@ func StateLoadCmp(v ssa.Value) (ssa.Value, bool) {
 		}
 		break
 	}
+	if u, isU := side.(*ssa.UnOp); isU && u.Op == token.MUL && theProg != nil {
+		// the plain read of a value of a private state type (its reader helper written out)
+		if pt, okp := u.X.Type().Underlying().(*types.Pointer); okp {
+			if named, okn := pt.Elem().(*types.Named); okn {
+				if kset, okSet := stateSetConst(named, theProg); okSet {
+					kk := k.Int64()
+					onSet := (kset == kk) == (b.Op == token.EQL)
+					onZero := (0 == kk) == (b.Op == token.EQL)
+					if onSet && !onZero {
+						return u.X, true
+					}
+				}
+			}
+		}
+		return nil, false
+	}
 	call, isC := side.(*ssa.Call)
 	if !isC || len(call.Call.Args) != 1 {
 		return nil, false
